@@ -138,6 +138,28 @@ def write_replay(prop, v):
     return p
 
 
+def shard_rerun(prop, cfg, binp, v, known_ids, out):
+    """Re-run the shard a violation was found in; True if the same case violates again."""
+    if v.get("nshards") in (None, 0):
+        return False
+    if os.path.exists(out):
+        os.remove(out)
+    args = ["-prop", prop, "-tier", v.get("tier") or "quick", "-shard", str(v.get("shard", 0)), "-nshards", str(v["nshards"]),
+            "-out", out, "-known", ",".join(known_ids), "-seed", str(v.get("seed", 0))]
+    cmd, envx = worker_cmd(cfg, binp, args)
+    env = dict(os.environ)
+    env.update(envx)
+    env.update(TZ="UTC", GOMAXPROCS=str(cfg.get("gomaxprocs", 2)))
+    try:
+        subprocess.run(cmd, env=env, capture_output=True, text=True, cwd=VERIF, timeout=3600)
+    except subprocess.TimeoutExpired:
+        return False
+    if not os.path.exists(out):
+        return False
+    res = json.load(open(out))
+    return any(x.get("input") == v.get("input") and x.get("check") == v.get("check") for x in res.get("violations") or [])
+
+
 def replay_twice(cfg, binp, path):
     outs = []
     for _ in range(2):
@@ -207,6 +229,11 @@ def main():
         except vbuild.BuildError as e:
             print("HARNESS-BUILD-ERROR\n" + str(e))
             sys.exit(2)
+        if v.get("history"):
+            ok = shard_rerun(prop, cfg, binp, v, [], os.path.join(CACHE, "replay_rerun.json"))
+            print("REPLAY (shard re-run %s/%s): %s" % (v.get("shard"), v.get("nshards"), "violation reproduced" if ok else "no violation reproduced"))
+            print(json.dumps({k: v.get(k) for k in ("check", "input", "observed", "expected", "explanation")}, indent=1)[:3000])
+            sys.exit(1 if ok else 0)
         cmd, envx = worker_cmd(cfg, binp, ["-replay", path])
         env = dict(os.environ)
         env.update(envx)
@@ -267,6 +294,7 @@ def main():
 
     rc = 0
     lines = []
+    history_note = None
     viol_paths = []
     race_path = None
     race_info = None
@@ -292,9 +320,21 @@ def main():
             print(outs[0][1][-2000:], "\n----\n", outs[1][1][-2000:])
             sys.exit(2)
         if outs[0][0] != 1:
-            print("HARNESS-ERROR: the first violation does not reproduce from its replay file (rc=%d)" % outs[0][0])
-            print(outs[0][1][-2000:])
-            sys.exit(2)
+            # Not reproducible in isolation. It may depend on what the same worker executed before (state carried
+            # between evaluations): re-run that whole shard twice; if the very same case fails again both times it is
+            # a history-dependent violation and the replay file says how to reproduce it (re-run the shard).
+            v0 = m["violations"][0]
+            again = [shard_rerun(prop, cfg, binp, v0, known_ids, os.path.join(outdir, "rerun%d.json" % i)) for i in range(2)]
+            if all(again):
+                v0["history"] = {"note": "reproduces only after the cases the same worker executes before it; bin/vcheck replay re-runs that shard",
+                                 "tier": v0.get("tier"), "shard": v0.get("shard"), "nshards": v0.get("nshards"), "seed": v0.get("seed")}
+                os.remove(viol_paths[0])
+                viol_paths[0] = write_replay(prop, v0)
+                history_note = "history-dependent violation (state carried between evaluations): reproduced by re-running shard %s/%s twice" % (v0.get("shard"), v0.get("nshards"))
+            else:
+                print("HARNESS-ERROR: the first violation reproduces neither from its replay file (rc=%d) nor by re-running its shard" % outs[0][0])
+                print(outs[0][1][-2000:])
+                sys.exit(2)
     if race_path:
         viol_paths.append(race_path)
     for fid, hit in sorted(m["known"].items()):
@@ -304,6 +344,8 @@ def main():
         rc = 1
         for p in viol_paths[:5]:
             lines.append(f"VIOLATION property={prop} replay={p}")
+        if history_note:
+            lines.append(history_note)
         if m["violations"]:
             v0 = m["violations"][0]
             lines.append("first counterexample: " + json.dumps({k: v0.get(k) for k in ("check", "input", "choices", "observed", "expected", "explanation")})[:3000])
